@@ -49,6 +49,9 @@ CONSTANTS NH,      \* handles
           MaxSub,  \* largest nested element count explored
           MaxArg,  \* largest position argument offered
           Kinds,   \* container kinds explored
+          Fails,   \* injected allocation failures offered: f = k makes the k-th allocation of the call fail (0: none)
+          FailOut, \* TRUE: the failed outcome of such a call is a transition of its own (model checking, traces);
+                   \* FALSE: only the regular outcome, the failed one is carried as exp.alt (behaviour export)
           Prune    \* TRUE: handle 1 is the actor (behaviour export)
 
 VARIABLES kind, val, cnt,   \* Tier 1
@@ -66,6 +69,8 @@ Slot(n, o, sub) == [n |-> n, o |-> o, sub |-> sub]
 Leaf(n, o) == Slot(n, o, <<>>)
 Nil == Leaf(0, 0)
 AnyOut == -99      \* exp.out: not compared
+LongName == 99     \* a name that cannot be stored (65535 characters or more)
+HeapName(n) == n \in {2, 5}   \* names the harness spells too long for an item's inline storage
 Nils(k) == [i \in 1..k |-> Nil]
 FirstN(s, n) == SubSeq(s, 1, Min(n, Len(s)))
 Drop(s, n)   == SubSeq(s, n + 1, Len(s))
@@ -146,7 +151,11 @@ Answer(a, arg, ret, out, fin) ==
                    refs |-> [o \in O |-> 1 + cnt'[o]],
                    fin |-> IF kind' = "cmd" THEN Tokens(fin) ELSE <<>>,
                    under |-> 0,
-                   leak |-> IF a = "final" THEN 0 ELSE -1],
+                   leak |-> IF a = "final" THEN 0 ELSE -1,
+                   \* a call with an injected allocation failure may also fail: then everything reads as before
+                   alt |-> IF "f" \in DOMAIN arg /\ arg.f > 0
+                           THEN [vals |-> [g \in H |-> Enc(kind, val[g])], refs |-> [o \in O |-> 1 + cnt[o]]]
+                           ELSE <<>>],
           mdl |-> [refs |-> [g \in H |-> Cardinality(share'[g])],
                    null |-> [g \in H |-> rec'[g].typ = "none"],
                    nc |-> [g \in H |-> rec'[g].nc]]]
@@ -165,6 +174,13 @@ Commit(a, arg, h, d, nd, ncNew, cre, fin, ret, out) ==
 
 Rel(pos0, used) == IF pos0 < 0 THEN pos0 + used ELSE pos0
 
+\* outcome of a call whose injected allocation failure struck: refused, every handle reads what it read, no
+\* reference taken or released (the caller keeps the one it offered); the handle may have got storage of its own
+Failed(a, arg, h) ==
+  /\ FailOut /\ arg.f > 0
+  /\ \/ Refuse(a, arg)
+     \/ Det(h).ok /\ Det(h).cre = <<>> /\ Commit(a, arg, h, Det(h), Det(h).data, TRUE, <<>>, <<>>, "refused", AnyOut)
+
 ---------------------------------------------------------------------------
 (* C++ unique arrays: unique_array<T>::insert/set/resize/reserve and the   *)
 (* members of reference_array<T>, item_array<T>                            *)
@@ -172,13 +188,15 @@ Rel(pos0, used) == IF pos0 < 0 THEN pos0 + used ELSE pos0
 \* insert(pos) of one element s (positions behind the end are filled with default elements)
 UInsert(a, arg, h, pos0, s, out) ==
   LET pos == Rel(pos0, Used(h)) d == Det(h) IN
-  IF pos < 0 \/ ~d.ok THEN Refuse(a, arg)
-  ELSE Commit(a, arg, h, d, Ins(d.data, pos, <<s>>), TRUE, <<s>>, <<>>, "ok", out)
+  \/ IF pos < 0 \/ ~d.ok THEN Refuse(a, arg)
+     ELSE IF s.n = LongName THEN Commit(a, arg, h, d, d.data, TRUE, <<>>, <<>>, "refused", AnyOut)   \* name refused: rolled back
+     ELSE Commit(a, arg, h, d, Ins(d.data, pos, <<s>>), TRUE, <<s>>, <<>>, "ok", out)
+  \/ Failed(a, arg, h)
 
 \* reference_array::insert(pos, ref): the reference handed in is taken over
-RInsert(h, pos, o) ==
+RInsert(h, pos, o, f) ==
   /\ kind = "ref"
-  /\ UInsert("rinsert", [h |-> h, pos |-> pos, o |-> o], h, pos, Leaf(0, o), AnyOut)
+  /\ UInsert("rinsert", [h |-> h, pos |-> pos, o |-> o, f |-> f], h, pos, Leaf(0, o), AnyOut)
 
 \* reference_array::set(pos, ref): the old reference is released
 RSet(h, pos0, o) ==
@@ -213,21 +231,24 @@ XCount(h) ==
   /\ NoChange("count", [h |-> h], "ok", Len(Live(rec[h].data)))
 
 \* item_array::append(obj, name): the reference handed in is taken over
-IAppend(h, o, n) ==
+IAppend(h, o, n, f) ==
   /\ kind = "item"
-  /\ UInsert("iappend", [h |-> h, o |-> o, n |-> n], h, Used(h), Leaf(n, o), AnyOut)
+  /\ UInsert("iappend", [h |-> h, o |-> o, n |-> n, f |-> f], h, Used(h), Leaf(n, o), AnyOut)
 
 \* unique_array<item<T>>::insert(pos): default element
-IInsert(h, pos) ==
+IInsert(h, pos, f) ==
   /\ kind = "item"
-  /\ UInsert("iinsert", [h |-> h, pos |-> pos], h, pos, Nil, AnyOut)
+  /\ UInsert("iinsert", [h |-> h, pos |-> pos, f |-> f], h, pos, Nil, AnyOut)
 
 \* unique_array<item<T>>::set(pos, item): assignment of a copy (the source keeps its own reference)
-ISet(h, pos0, o, n) ==
-  LET arg == [h |-> h, pos |-> pos0, o |-> o, n |-> n] pos == Rel(pos0, Used(h)) d == Det(h) IN
-  /\ kind = "item"
-  /\ IF pos < 0 \/ pos >= Used(h) \/ ~d.ok THEN Refuse("iset", arg)
-     ELSE Commit("iset", arg, h, d, Put(d.data, pos + 1, Leaf(n, o)), TRUE, <<Leaf(n, o)>>, <<d.data[pos + 1]>>, "ok", AnyOut)
+\* (the assignment operators have no way to report a name that could not be copied: with an injected failure only
+\* names that need no storage are offered)
+ISet(h, pos0, o, n, f) ==
+  LET arg == [h |-> h, pos |-> pos0, o |-> o, n |-> n, f |-> f] pos == Rel(pos0, Used(h)) d == Det(h) IN
+  /\ kind = "item" /\ (f > 0 => ~HeapName(n))
+  /\ \/ IF pos < 0 \/ pos >= Used(h) \/ ~d.ok THEN Refuse("iset", arg)
+        ELSE Commit("iset", arg, h, d, Put(d.data, pos + 1, Leaf(n, o)), TRUE, <<Leaf(n, o)>>, <<d.data[pos + 1]>>, "ok", AnyOut)
+     \/ Failed("iset", arg, h)
 
 \* the caller changes the instance of an element it owns exclusively (as item_group::clear does)
 IElem(h, pos, o) ==
@@ -252,12 +273,13 @@ UCtor(h, len) ==
      ELSE Commit("ctor", arg, h, Det(h), <<>>, TRUE, <<>>, <<>>, "ok", AnyOut)
 
 \* unique_array::resize(len): the tail is destroyed / default elements are added
-UResize(h, len) ==
-  LET arg == [h |-> h, len |-> len] d == Det(h) IN
+UResize(h, len, f) ==
+  LET arg == [h |-> h, len |-> len, f |-> f] d == Det(h) IN
   /\ kind \in {"ref", "item"}
-  /\ IF ~d.ok THEN Refuse("resize", arg)
-     ELSE Commit("resize", arg, h, d, IF len <= Len(d.data) THEN FirstN(d.data, len) ELSE Pad(d.data, len), TRUE,
-                 <<>>, Drop(d.data, len), "ok", AnyOut)
+  /\ \/ IF ~d.ok THEN Refuse("resize", arg)
+        ELSE Commit("resize", arg, h, d, IF len <= Len(d.data) THEN FirstN(d.data, len) ELSE Pad(d.data, len), TRUE,
+                    <<>>, Drop(d.data, len), "ok", AnyOut)
+     \/ Failed("resize", arg, h)
 
 \* unique_array::reserve(len) (negative: relative to the length): capacity only
 UReserve(h, len0) ==
@@ -270,12 +292,15 @@ UReserve(h, len0) ==
 (* item_group: append / clear / clone / add_items                          *)
 CountLive(s) == Len(Live(s))
 
-GAppend(a, h, o, n) ==
-  LET arg == [h |-> h, o |-> o, n |-> n] d == Det(h) IN
-  /\ kind = "group" /\ o # 0
-  /\ IF ~d.ok THEN Frame /\ Answer(a, arg, IF a = "gadd" THEN "any" ELSE "refused", AnyOut, <<>>)
-     ELSE Commit(a, arg, h, d, d.data \o <<Leaf(n, o)>>, TRUE, <<Leaf(n, o)>>, <<>>,
-                 IF a = "gadd" THEN "any" ELSE "ok", IF a = "gadd" THEN AnyOut ELSE CountLive(d.data) + 1)
+GAppend(a, h, o, n, f) ==
+  LET arg == [h |-> h, o |-> o, n |-> n, f |-> f] d == Det(h) IN
+  /\ kind = "group" /\ o # 0 /\ (f > 0 => ~HeapName(n))
+  /\ \/ IF ~d.ok THEN Frame /\ Answer(a, arg, IF a = "gadd" THEN "any" ELSE "refused", AnyOut, <<>>)
+        ELSE Commit(a, arg, h, d, d.data \o <<Leaf(n, o)>>, TRUE, <<Leaf(n, o)>>, <<>>,
+                    IF a = "gadd" THEN "any" ELSE "ok", IF a = "gadd" THEN AnyOut ELSE CountLive(d.data) + 1)
+     \/ /\ FailOut /\ f > 0     \* add_items goes on after a failed append and answers true
+        /\ \/ Frame /\ Answer(a, arg, IF a = "gadd" THEN "any" ELSE "refused", AnyOut, <<>>)
+           \/ d.ok /\ d.cre = <<>> /\ Commit(a, arg, h, d, d.data, TRUE, <<>>, <<>>, IF a = "gadd" THEN "any" ELSE "refused", AnyOut)
 
 \* item_group::clear(ref): items holding ref lose it; more than half without instance: compacted
 GClear(h, o) ==
@@ -456,24 +481,33 @@ Next ==
        \/ \E g \in H : Copy(h, g)
        \/ A /\ ~IsNull(h) /\ Release(h)
        \* reference_array
-       \/ \E pos \in Pos, o \in 0..NO : ((Prune /\ h # 1) => (pos = 0 /\ o = 1)) /\ RInsert(h, pos, o)
+       \/ \E pos \in Pos, o \in 0..NO, f \in Fails :
+            /\ ((Prune /\ h # 1) => (pos = 0 /\ o = 1 /\ f = 0)) /\ (Prune /\ f > 0 => o # 0)
+            /\ (FailOut /\ f > 0) => (pos = 0 /\ o = 1)     \* the failed outcome does not depend on the arguments
+            /\ RInsert(h, pos, o, f)
        \/ \E pos \in Pos, o \in 0..NO : A /\ RSet(h, pos, o)
        \/ \E o \in 0..NO : A /\ RClear(h, o)
        \/ A /\ RCompact(h)
        \/ A /\ XCount(h)
        \* item_array
-       \/ \E o \in 0..NO, n \in 0..NN : ((Prune /\ h # 1) => (o = 1 /\ n = 1)) /\ IAppend(h, o, n)
-       \/ \E pos \in Pos : A /\ IInsert(h, pos)
-       \/ \E pos \in Pos, o \in 0..NO, n \in 0..NN : A /\ (Prune => n = IF o = 0 THEN 0 ELSE NN) /\ ISet(h, pos, o, n)
+       \/ \E o \in 0..NO, n \in (0..NN) \cup {LongName}, f \in Fails :
+            /\ (Prune /\ h # 1) => (o = 1 /\ n = 1 /\ f = 0)
+            /\ (Prune /\ (f > 0 \/ n = LongName)) => o # 0
+            /\ (FailOut /\ f > 0) => (o = 1 /\ n = 1)
+            /\ IAppend(h, o, n, f)
+       \/ \E pos \in Pos, f \in Fails : A /\ (Prune /\ f > 0 => pos \in {0, MaxArg}) /\ ((FailOut /\ f > 0) => pos = 0) /\ IInsert(h, pos, f)
+       \/ \E pos \in Pos, o \in 0..NO, n \in 0..NN, f \in Fails :
+            A /\ (Prune => (n = (IF o = 0 THEN 0 ELSE NN) /\ f = 0)) /\ ((FailOut /\ f > 0) => (pos = 0 /\ o = 1 /\ n = 1)) /\ ISet(h, pos, o, n, f)
        \/ \E pos \in 0..MaxArg, o \in 0..NO : A /\ IElem(h, pos, o)
        \/ A /\ ICompact(h)
        \/ \E len \in (-1)..MaxArg : (Prune /\ h # 1 => len = 1) /\ UCtor(h, len)
-       \/ \E len \in 0..MaxArg : A /\ UResize(h, len)
+       \/ \E len \in 0..MaxArg, f \in Fails : A /\ (Prune /\ f > 1 => len = MaxArg) /\ ((FailOut /\ f > 0) => len = MaxArg) /\ UResize(h, len, f)
        \/ \E len \in (-2)..MaxArg : A /\ UReserve(h, len)
        \* item_group
-       \/ \E o \in O, n \in 0..NN, a \in {"gappend", "gadd"} :
-            /\ (Prune /\ h # 1) => (o = 1 /\ n = 1 /\ a = "gappend")
-            /\ GAppend(a, h, o, n)
+       \/ \E o \in O, n \in 0..NN, a \in {"gappend", "gadd"}, f \in Fails :
+            /\ (Prune /\ h # 1) => (o = 1 /\ n = 1 /\ a = "gappend" /\ f = 0)
+            /\ (FailOut /\ f > 0) => (o = 1 /\ n = 1)
+            /\ GAppend(a, h, o, n, f)
        \/ \E o \in O : A /\ GClear(h, o)
        \* config items
        \/ \E p \in 1..NN, q \in 0..NN, o \in 0..NO :
